@@ -13,6 +13,7 @@ import (
 	"path/filepath"
 	"runtime/debug"
 	"sort"
+	"strconv"
 	"strings"
 	"testing"
 
@@ -35,6 +36,7 @@ type c07RecallCase struct {
 	Chunk     int      `json:"chunk"`  // batch / import chunk size
 	Phases    []string `json:"phases"` // del10 | del30 | del50 | vacuum | refine | restart | compress | grow
 	NQ        int      `json:"nq"`
+	Anchor    string   `json:"anchor,omitempty"` // name of the fixed configuration this case instantiates ("" = generated)
 }
 
 var c07Phases = []string{"del10", "del30", "del50", "vacuum", "refine", "restart", "compress", "grow"}
@@ -282,7 +284,11 @@ func (r *c07rRun) measure(after string) string {
 			live = append(live, lv{id, vd.Vector})
 		}
 	}
-	pt := c07Point{Class: c07Class(r.c, r.prec, r.path()), After: after, Live: len(live), Self: -1, Refining: h.NeedsRefine()}
+	cls := c07Class(r.c, r.prec, r.path())
+	if r.c.Anchor != "" {
+		cls = fmt.Sprintf("anchor:%s#%d", r.c.Anchor, len(r.points))
+	}
+	pt := c07Point{Class: cls, After: after, Live: len(live), Self: -1, Refining: h.NeedsRefine()}
 	if g, err := c07ReadGraph(r.e); err == nil {
 		pt.EpLevel = g.MaxLevel
 	}
@@ -531,6 +537,27 @@ func c07RunRecall(c c07RecallCase) (msg string, r *c07rRun) {
 	return "", r
 }
 
+// ------------------------------------------------------------------ anchors
+
+type c07Anchor struct {
+	c     c07RecallCase
+	quick bool
+}
+
+func c07Anchors() []c07Anchor {
+	return []c07Anchor{
+		// the engine's default graph parameters on unclustered 64-d data, built by the parallel batch path:
+		// the configuration where efSearch matters most (recall at ef=10 is far below recall at ef=100)
+		{quick: true, c: c07RecallCase{Anchor: "default-batch", Cfg: c07Cfg{Metric: "cosine", Prec: "float32", M: 16, EfC: 200, Dim: 64}, N: 2000, Data: "uniform", Build: "batch", Chunk: 100, Phases: []string{"del30", "vacuum", "restart"}, NQ: 200}},
+		// a small-parameter index loaded by fast import on clustered data, then refined, half deleted, vacuumed
+		{quick: true, c: c07RecallCase{Anchor: "small-import", Cfg: c07Cfg{Metric: "euclidean", Prec: "float16", M: 8, EfC: 40, Dim: 16}, N: 1500, Data: "clustered", Build: "import", Chunk: 200, Phases: []string{"refine", "del50", "vacuum"}, NQ: 200}},
+		// default parameters, one-by-one inserts
+		{c: c07RecallCase{Anchor: "default-single", Cfg: c07Cfg{Metric: "euclidean", Prec: "float32", M: 16, EfC: 200, Dim: 64}, N: 2000, Data: "gauss", Build: "single", Chunk: 200, Phases: []string{"del30", "vacuum", "grow"}, NQ: 200}},
+		// compression to int8 of a cosine index
+		{c: c07RecallCase{Anchor: "compress-int8", Cfg: c07Cfg{Metric: "cosine", Prec: "float32", M: 16, EfC: 40, Dim: 32}, N: 1000, Data: "gauss", Build: "batch", Chunk: 100, Phases: []string{"compress", "del10"}, NQ: 200}},
+	}
+}
+
 // ------------------------------------------------------------------ floors
 
 // c07Class is the stratum a checkpoint belongs to: recall of a correct HNSW depends first of all on
@@ -719,18 +746,28 @@ func TestVerif_C07_recall(t *testing.T) {
 			}
 		}
 	}
-	// anchor cases (shard 0 only): the engine's default graph parameters (M=16, efConstruction=200) on the
-	// hardest data of the quick tier (dim 64, unclustered) - the class where efSearch matters most - and a
-	// typical small configuration; only their seeds vary with the campaign seed.
-	if verifkit.Shard() == 0 {
-		sd := uint64(verifkit.Seed())
-		anchors := []c07RecallCase{
-			{LevelSeed: int64(sd%100000) + 1, DataSeed: sd*7919 + 11, Cfg: c07Cfg{Metric: "euclidean", Prec: "float32", M: 16, EfC: 200, Dim: 64}, N: 2000, Data: "gauss", Build: "single", Chunk: 200, Phases: []string{"del30", "vacuum", "grow"}, NQ: 60},
-			{LevelSeed: int64(sd%100000) + 2, DataSeed: sd*104729 + 5, Cfg: c07Cfg{Metric: "cosine", Prec: "float32", M: 8, EfC: 40, Dim: 16}, N: 1000, Data: "uniform", Build: "batch", Chunk: 200, Phases: []string{"del10", "refine", "restart"}, NQ: 60},
-		}
-		for _, a := range anchors {
+	// anchor cases: fixed configurations whose only varying inputs are the two seeds, so that their
+	// checkpoint distributions are homogeneous and the 10-sigma floors are sharp. Quick tier: two anchors on
+	// shard 0; thorough tier: every anchor on every shard (VERIF_C07_ANCHORS=n: n seeds per anchor and shard,
+	// used for the floor measurement).
+	nAnch := 0
+	if verifkit.Thorough() || verifkit.Shard() == 0 {
+		nAnch = 1
+	}
+	if v, err := strconv.Atoi(os.Getenv("VERIF_C07_ANCHORS")); err == nil && v > 0 {
+		nAnch = v
+	}
+	for rep := 0; rep < nAnch && !t.Failed(); rep++ {
+		for ai, a := range c07Anchors() {
+			if !verifkit.Thorough() && !a.quick {
+				continue
+			}
+			sd := uint64(verifkit.Seed())*1000003 + uint64(verifkit.Shard())*7919 + uint64(rep)*104729 + uint64(ai)
+			c := a.c
+			c.LevelSeed = int64(sd%(1<<40)) + 1
+			c.DataSeed = (sd*2654435761)%(1<<40) + 1
 			if !t.Failed() {
-				one(a, func(m string) { t.Error(m) }, "anchor")
+				one(c, func(m string) { t.Error(m) }, "anchor:"+c.Anchor)
 			}
 		}
 	}
